@@ -53,6 +53,7 @@ import (
 	"reflect"
 	"runtime"
 	"slices"
+	"strings"
 	"sync/atomic"
 	_ "unsafe"
 
@@ -638,6 +639,9 @@ func runFrame(fr *frame) {
 		if debugPanics {
 			if _, ok := r.(runtime.Error); ok {
 				fmt.Fprintf(os.Stderr, "DEBUG host runtime error in %s: %v%s\n", fr.fn, r, hostStack())
+			}
+			if str, ok := r.(string); ok && strings.Contains(str, "unexpected") {
+				fmt.Fprintf(os.Stderr, "DEBUG interp panic in %s at %s: %v\n", fr.fn, fr.i.prog.Fset.Position(fr.block.Instrs[0].Pos()), r)
 			}
 		}
 		fr.panicking = true
